@@ -142,7 +142,7 @@ def check(seed, extra_props=()):
         rc, out = sh("git apply %s" % os.path.join(seed, "patch.diff"), cwd=wt)
         assert rc == 0, out
         for pid in [meta["property"], *extra_props]:
-            vdir = "/tmp/verif_seed_%s" % pid
+            vdir = "/tmp/verif_seed_%s_%s" % (pid, os.path.basename(wt))
             os.makedirs(vdir, exist_ok=True)
             shutil.copy(os.path.join(VERIF, "known_findings.json"), vdir)
             rc, out = sh("%s/bin/polycheck -property %s -repo %s -verif %s" % (VERIF, pid, wt, vdir))
